@@ -16,7 +16,11 @@ EXTREME_DOUBLES = ["5e-324", "4.9e-324", "1e-320", "2.2250738585072014e-308", "2
                    "123456789012345678e-2", "0.000001", "1E-5", "-1e-300", "6.02214076e23", "1.0e+2",
                    # whole doubles around the limits of the two integer representations, spelled with fraction / exponent
                    "-1e19", "-9.3e18", "-1.5E19", "-10000000000000000000.0", "1e19", "1.8446744073709552e19", "-9.223372036854775808e18",
-                   "9.223372036854775808e18", "1.8446744073709551615e19", "-1.8446744073709552e19", "-1.7e19", "1.9e19", "-9.2233720368547758e18"]
+                   "9.223372036854775808e18", "1.8446744073709551615e19", "-1.8446744073709552e19", "-1.7e19", "1.9e19", "-9.2233720368547758e18",
+                   # long spellings that sit on or next to the midpoint of two doubles: every digit counts
+                   "9007199254740993.00000000000000000000000000001", "1.00000000000000011102230246251565404236316680908203126",
+                   "1.00000000000000011102230246251565404236316680908203124", "9007199254740993.0000000000000000000000000000000000000000000000000000000000001",
+                   "0.3000000000000000166533453693773481063544750213623046875000000000000000000000000000000000000001", "4.35e0", "0.1e1"]
 
 CP_CLASSES = [
     (lambda r: r.randrange(0x20, 0x7F), 8),                       # printable ASCII
@@ -185,6 +189,23 @@ def spell(r, v, variety=True, wsp=0.25):
 
 
 STRUCT = set(b'"[]{}')
+
+
+def with_twins(r, values):
+    """The values, some of them followed at once by a value that is equal to it for jawk but another text (members in another order, the integer
+    next to the float it rounds to): each must come out as itself."""
+    out = []
+    for v in values:
+        out.append(v)
+        if v[0] == "obj" and len(v[1]) >= 2 and r.random() < 0.5:
+            m = list(v[1])
+            m.reverse()
+            out.append(("obj", m))
+        elif v[0] == "arr" and v[1] and v[1][0][0] == "obj" and len(v[1][0][1]) >= 2 and r.random() < 0.5:
+            out.append(("arr", [("obj", list(reversed(v[1][0][1])))] + list(v[1][1:])))
+    if r.random() < 0.2:
+        out += [("num", "18446744073709551615"), ("num", "18446744073709551616"), ("num", "18446744073709551615")]
+    return out
 
 
 def spell_stream(r, values, variety=True, touch=True):
